@@ -248,15 +248,20 @@ def get_model(
         assoc = getattr(lang_classes_factory.ns, assoc_name)()
         setattr(assoc, left_field, [left_asset])
         setattr(assoc, right_field, [right_asset])
-        if not (instance_model.association_exists_between_assets(
+        # Every link is returned twice, once from each end. It is the same
+        # link only with the assets in the same fields, which matters for
+        # associations that relate an asset type to itself.
+        first_field = list(
+            instance_model.get_association_field_names(assoc))[0]
+        if left_field == first_field:
+            first_asset, second_asset = left_asset, right_asset
+        else:
+            first_asset, second_asset = right_asset, left_asset
+        if not instance_model.association_exists_between_assets(
             assoc_name,
-            left_asset,
-            right_asset
-        ) or instance_model.association_exists_between_assets(
-            assoc_name,
-            right_asset,
-            left_asset
-        )):
+            first_asset,
+            second_asset
+        ):
             instance_model.add_association(assoc)
 
     return instance_model
